@@ -94,6 +94,7 @@ def compare(c, dump):
 def run(ctx):
     bdir = build.core("plain")
     cases, g = fc.gen(ctx, with_mutants=False)
+    cases = [c for c in cases if not c["schema"]["aux"]]      # the statement quantifies over single-schema inputs
     if ctx.quick:
         cases = cases[::2][:10]
     n = dis = 0
